@@ -35,9 +35,23 @@ MANIFEST = {
 QUERY_KINDS = ["plain", "ref", "partial", "force_local", "ctx", "unregistered"]
 
 
-def base_program():
-    """f0 -> h (plain) -> G ; f0 -> f1 (memento, self-recursive) ; f2 referenced by f1 but defined late."""
+def base_program(declared=False):
+    """f0 -> h (plain) -> G ; f0 -> f1 (memento, self-recursive) ; f2 referenced by f1 but defined late.
+    declared: f0 also reaches a memento function f4 dynamically and declares it (dependencies=["f4"])."""
     lit = lambda v: {"e": "lit", "v": v}  # noqa: E731
+    p = _base_program(lit)
+    if declared:
+        f0 = progs.find(p, "f0")
+        # (f4: a memento function nothing else refers to; re-binding its name to a plain function registers nothing)
+        f4 = {"k": "fn", "mod": "a", "name": "f4", "memento": True, "version": None, "cluster": None, "pdef": None, "kwdef": None,
+              "base": lit(4), "body": {"e": "x"}}
+        p["defs"].insert(p["defs"].index(f0), f4)
+        f0["declared"] = ["f4"]
+        f0["body"] = {"e": "add", "a": f0["body"], "b": {"e": "hidden", "f": "f4", "via": "globals"}}
+    return p
+
+
+def _base_program(lit):
     return {"pkg": "vpk", "modules": ["a"], "defs": [
         {"k": "var", "mod": "a", "name": "G0", "vtype": "list", "value": [1, 2]},
         {"k": "fn", "mod": "a", "name": "f3", "memento": False, "version": None, "cluster": None, "pdef": 2, "kwdef": None,
@@ -63,14 +77,16 @@ SMALL_EVENTS = [
     {"ev": "lockedit", "edit": {"kind": "var", "site": 0, "delta": 2}},
     {"ev": "recluster", "name": "f1"},
     {"ev": "unwrap", "name": "f1"},
+    {"ev": "unwrap", "name": "f4"},
 ]
 
 
 def small_scope(max_len):
     for n in range(1, max_len + 1):
         for seq in itertools.product(range(len(SMALL_EVENTS)), repeat=n):
-            for every, clone_first in ((True, False), (False, False), (True, True), (False, True)):
-                p = base_program()
+            for every, clone_first, declared in ((True, False, False), (False, False, False), (True, True, False), (False, True, False),
+                                                 (True, False, True), (False, False, True)):
+                p = base_program(declared)
                 if sum(seq) % 2:
                     progs.find(p, "f2")["late"] = "placeholder"
                 yield {"program": p, "events": [SMALL_EVENTS[i] for i in seq], "query_every": every, "clone_first": clone_first,
@@ -267,14 +283,19 @@ def strategy(thorough):
 
     @st.composite
     def case(draw):
-        p = draw(progs.program_strategy(max_fns=6 if thorough else 5, allow_alias=False, allow_explicit=False, allow_tuplist=True, allow_dictset=True, allow_twins=True, allow_rename=True, allow_nested_refs=True, allow_gdef=True))
+        p = draw(progs.program_strategy(max_fns=6 if thorough else 5, allow_alias=False, allow_explicit=False, allow_tuplist=True, allow_dictset=True, allow_twins=True, allow_rename=True, allow_nested_refs=True, allow_gdef=True, allow_declared=True))
+        # (dependencies declared by memento's qualified name only name memento functions: the events that turn a function
+        # into a plain one, or move it to another cluster, would make the text invalid - dotted names only here)
+        for dd in progs.fns(p):
+            dd.pop("declared_q", None)
         # some variables start undefined too (a function in another module then refers to a missing module attribute)
         for dd in p["defs"]:
             if dd["k"] == "var" and draw(st.integers(0, 3)) == 0 and not any(f_.get("gdef") == dd["name"] for f_ in progs.fns(p)):
                 dd["late"] = True   # (not a variable that is some parameter's default: that one must exist when the function is defined)
         # some functions start undefined ("late")
         for dd in progs.fns(p):
-            if dd["name"] != "f0" and draw(st.integers(0, 3 if dd["memento"] else 2)) == 0:
+            if dd["name"] != "f0" and draw(st.integers(0, 3 if dd["memento"] else 2)) == 0 and \
+                    not any(dd["name"] in (f_.get("declared") or []) for f_ in progs.fns(p)):   # (a declared dependency must exist when its declarer is defined)
                 # an opaque placeholder leaves no hash rule behind, so only the registration of a memento
                 # function can signal its replacement; plain helpers start undefined instead
                 dd["late"] = draw(st.sampled_from([True, "placeholder"])) if dd["memento"] else True
